@@ -173,6 +173,10 @@ pub struct SeqCase {
     /// chunk sizes of the underlying source (cycled; empty = one big chunk)
     pub chunks: Vec<u16>,
     pub ops: Vec<Op>,
+    /// go on with the remaining operations after one has failed (a failed read leaves the in-memory
+    /// reader where it was, so the sequence stays comparable); false = stop at the first error
+    #[serde(default)]
+    pub keep_going: bool,
 }
 
 /// vint64 encoding written from its specification (number of trailing zero bits of the first byte =
@@ -328,7 +332,9 @@ fn seq_strategy(excl: Excl, huge: bool) -> BoxedStrategy<SeqCase> {
                 },
             }
             data.truncate(2000);
-            SeqCase { data: vf_core::hex(&data), chunks, ops }
+            // derived from the generated material (no extra generator, so that earlier replay files keep their meaning)
+            let keep_going = (data.len() + ops.len()) % 5 < 2;
+            SeqCase { data: vf_core::hex(&data), chunks, ops, keep_going }
         })
         .boxed()
 }
@@ -377,7 +383,7 @@ impl SubCheck for Seq {
     }
     fn rule(&self) -> String {
         let mut s = String::from(
-            "1..59 operations over {read_u8, peek_u8, read_bool, read_u16/u32/u64/u128, read_usize, read_slice(n<=600 incl. 0), read_array<0|1|8|16|32|300>, read_vec, read_string, read_many<u8|u64|(u8,u16)>, check_eor, has_more_bytes}; byte stream (<=2000 bytes) assembled from per-operation payloads (valid vint64 / 0-1 / UTF-8 mostly), then exact / extended / truncated; source chunking in {1-byte, <16, random, around 256, around 512, one big}, never a zero-length chunk before EOF; model SliceReader, Cursor and ReadAdapter compared after every step and by a final drain. non-trivial = a source chunk boundary falls strictly inside a multi-byte read AND a read_slice(n>0) is followed by another consuming read; distinct by whole case",
+            "1..59 operations over {read_u8, peek_u8, read_bool, read_u16/u32/u64/u128, read_usize, read_slice(n<=600 incl. 0), read_array<0|1|8|16|32|300>, read_vec, read_string, read_many<u8|u64|(u8,u16)>, check_eor, has_more_bytes}; byte stream (<=2000 bytes) assembled from per-operation payloads (valid vint64 / 0-1 / UTF-8 mostly), then exact / extended / truncated; source chunking in {1-byte, <16, random, around 256, around 512, one big}, never a zero-length chunk before EOF; model SliceReader, Cursor and ReadAdapter compared after every step and by a final drain; in two fifths of the cases the sequence goes on after a failed operation (a failed read leaves every reader where it was). non-trivial = a source chunk boundary falls strictly inside a multi-byte read AND a read_slice(n>0) is followed by another consuming read; distinct by whole case",
         );
         if self.huge {
             s.push_str("; this variant adds requests of 2^63-4..2^63+3 and usize::MAX-1999..usize::MAX bytes to check_eor/read_slice/read_vec");
@@ -399,6 +405,10 @@ impl SubCheck for Seq {
         v.push("end=completed".into());
         v.push("end=error:UnexpectedEOF".into());
         v.push("end=error:InvalidValue".into());
+        if !self.huge {
+            v.push("continued-after-error".into());
+            v.push("has_more_bytes-right-after-error".into());
+        }
         if !self.excl.slice && !self.excl.array {
             v.push("crossed-boundary-in-multibyte-read".into());
             v.push("slice-then-read".into());
@@ -554,7 +564,16 @@ impl Seq {
                 },
             }
             if m.is_err() {
-                break;
+                if !c.keep_going || op.is_huge() {
+                    break;
+                }
+                // both readers have refused: carry on from where they are
+                end = "completed".to_string();
+                obs.label("continued-after-error");
+                if matches!(c.ops.get(i + 1), Some(Op::HasMore)) {
+                    obs.label("has_more_bytes-right-after-error");
+                }
+                continue;
             }
             // bookkeeping (successful step)
             let consuming = after > before;
